@@ -124,6 +124,9 @@ PROBE_FILES = {
     "sub/c.py": "def f(p):\n    with open(p) as fh:\n        return fh.read()\n\nt = bool(True)\n",
     "clean.py": "x = 1\n",
     "broken.py": "def f(:\n",
+    # non-ASCII text to the LEFT of the diagnosed nodes: every format must print the same column
+    "uni.py": 'd\u00e9j\u00e0 = 1\nok = "\u20ac\u20ac" and (d\u00e9j\u00e0 == 1 or d\u00e9j\u00e0 == 2)\ns = "\u65e5\u672c" + str("x"); t = int(0)\n',
+    "tab.py": 'if True:\n\tv = "\u00fc" or int(0)\n',
 }
 
 
@@ -239,6 +242,7 @@ def run(ctx) -> None:
             ("missing", ["nope.py"]),
             ("debug-clean", ["clean.py", "--debug"]),
             ("debug-diag", ["a.py", "--debug"]),
+            ("non-ascii-columns", ["uni.py", "tab.py"]),
             ("dir", ["sub"]),
         ]
         jobs = []
